@@ -289,7 +289,7 @@ class C08Quant(Spec):
     pid = "C08"
     props_modules = ["DSProofs.Props.C08_Quantiles"]
     tfamilies = ["quantiles"]
-    rule = ("short histories (1-3 classic quantiles sketches, k in {2,4,8,16}, equal k / down-sampling in both directions / exact operands / "
+    rule = ("short histories (1-3 classic quantiles sketches of int64 / double / std::string items, k in {2,4,8,16}, equal k / down-sampling in both directions / exact operands / "
             "merge chains / copies) whose complete tree of random choices (coins and stride offsets) has <= 4096 leaves quick, <= 16384 "
             "thorough: EVERY choice vector is executed on the real code; plus long histories on one recorded choice sequence; a tree is "
             "non-trivial when it has >= 2 leaves; distinct = distinct (item type, arity sequence, op skeleton)")
